@@ -204,8 +204,11 @@ def run(ctx: Ctx) -> None:
         txt = ast.unparse(bld.node)
         ok = "bb.successors.remove(succ)" in txt and "succ.predecessors.remove(bb)" in txt and "pred.dummy_successors.remove(bb)" in txt and "bb.dummy_predecessors = []" in txt \
             and "update_reachable()" in txt
-        ctx.check(ok, "R-C08.4", f"{bld.qualname}#pruning-is-symmetric", bld.where, {},
-                  "pruning jumps from unreachable into reachable code leaves successor/predecessor lists inconsistent")
+        if ok:
+            ctx.ok("R-C08.4", f"{bld.qualname}#pruning-is-symmetric", bld.where, {"decided_by": "text of the pruning statements"})
+        else:
+            # neither interpretable nor in the known spelling: nothing can be said (a spelling that is absent proves nothing)
+            ctx.undecided("R-C08.4", f"{bld.qualname}#pruning-is-symmetric", bld.where, "build could not be interpreted and the pruning statements are not in the known form")
 
     # ------------------------------------------------------------ R-C08.5 path-dependent types
     from . import c08_rows
